@@ -233,7 +233,7 @@ var errSeeds = []string{"abs(`\"a\"`)", "length(`1`)", "nosuch(@)", "abs()", "`[
 	"`null`.abs(@)", "`null`.nosuch(@)", "(`[]`[0].length(@))", "`{}`.k.abs(@)"}
 
 // One-hole contexts in which the hole must be evaluated (document: errDoc).
-var strictCtx = []string{"{k: %s, k: a}", "{k: a, k: %s}", "{k: %s, j: a, k: a}", "arr[*].{k: %s, k: a}", "[%s, %s][1]", "%s", "(%s)", "%s.a", "%s[0]", "%s[*]", "%s[]", "%s[?a]", "%s.*", "%s[1:]", "%s | a", "a | %s", "%s || a", "%s && a", "!%s",
+var strictCtx = []string{"%s | `1`", "%s | 'x'", "%s | `null`", "%s | [`1`, `2`]", "[%s] | `1`", "%s | `1` | @","{k: %s, k: a}", "{k: a, k: %s}", "{k: %s, j: a, k: a}", "arr[*].{k: %s, k: a}", "[%s, %s][1]", "%s", "(%s)", "%s.a", "%s[0]", "%s[*]", "%s[]", "%s[?a]", "%s.*", "%s[1:]", "%s | a", "a | %s", "%s || a", "%s && a", "!%s",
 	"%s == a", "a == %s", "%s < a", "a < %s", "nums[0] < %s", "%s >= nums[0]", "[a, %s]", "[%s]", "{k: %s}", "{k: a, j: %s}", "arr[*].[%s]", "arr[?%s]", "arr[?a == %s]",
 	"arr[*].{k: %s}", "empty || %s", "arr && %s", "abs(%s)", "not_null(%s)", "not_null(a, %s)", "to_array(%s)", "length(%s)", "type(%s)", "merge(obj, %s)",
 	"contains(arr, %s)", "sort_by(arr, &%s)", "map(&%s, arr)", "max_by(arr, &%s)", "map(&a, %s)", "arr[].%s", "obj.*.%s | @", "arr[0:2].%s", "to_string(%s)", "arr[*].a | %s"}
@@ -493,6 +493,12 @@ func streamPipe(seed uint64, idx int) caseT {
 		// A fails on a LATER element only; B looks at the first result
 		as := g.r.pick([]string{"`[1,\"x\"]`[?abs(@) > `0`]", "`[1,2,\"x\"]`[*].abs(@)", "`[[1],[\"x\"]]`[].abs(@)", "map(&abs(@), `[1,\"x\"]`)",
 			"`[{\"a\":1},{\"a\":\"x\"}]`[?abs(a) > `0`].a", "`[1,\"x\"]`[0:2].abs(@)"})
+		if g.r.chance(35) {
+			// A fails outright; B does not look at its input at all (a literal): the pipe is an error all the same
+			as = g.r.pick([]string{"`[1,2]`[::0]", "abs('x')", "nosuch(@)", "length(`1`, `2`)", "`[3,1]`[1:][::0]", "sort_by(`[1,\"a\"]`, &@)", "[abs('x')]", "{k: nosuch(@)}"})
+			bs := g.r.pick([]string{"`1`", "'x'", "`null`", "[`1`, `2`]", "{k: `1`}", "`[]` | length(@)", "`1` | @"})
+			return caseT{lines: []string{"P " + hexField(as) + " " + hexField(bs) + " " + canonOf(doc), "S " + hexField(as+" | "+bs) + " " + canonOf(doc)}}
+		}
 		bs := g.r.pick([]string{"[0]", "[:1]", "length(@)", "@[0]", "[0] | @", "not_null(@)"})
 		return caseT{lines: []string{"P " + hexField(as) + " " + hexField(bs) + " " + canonOf(doc)}}
 	}
